@@ -219,9 +219,11 @@ theorem seg_upTo {V : Prop} {c : List Char} {d hi : Nat} {m : Srcmap} (hs : SegA
     (hw : C05.WFMap m) : UpTo c m hi := by
   intro pos x hpos hreal hx
   obtain ⟨i, k, v, h1, h2, h3, h4⟩ := C05.lineOf_spec m hw pos
-  rw [C05.getSourcePosFor_of_line m pos i k v h1 h2 h3] at hx
+  rw [C05.getSourcePosFor_of_line_clamp m pos i k v h1 h2 h3] at hx
   simp only [Except.ok.injEq] at hx
   subst hx
+  suffices v + (pos - k) ≤ hi by
+    have := C05.clampNext_le m i (v + (pos - k)); omega
   have hseg := segAll_get hs h2
   cases hn : m[i + 1]? with
   | none =>
@@ -241,6 +243,41 @@ theorem seg_upTo {V : Prop} {c : List Char} {d hi : Nat} {m : Srcmap} (hs : SegA
     · have := h4 _ _ _ (Nat.lt_succ_self i) hn
       simp only at h
       omega
+
+/-- with the clamp of `get_source_pos_for` (`fix:` "positions inside the virtual spaces of a split
+    tab") the restriction of `UpTo` to positions outside virtual segments is no longer needed: EVERY
+    position of the content is translated to `≤ hi` (inside a virtual segment: to the source offset
+    the segment sits on) -/
+def UpToAll (c : List Char) (m : Srcmap) (hi : Nat) : Prop :=
+  ∀ pos x, pos ≤ byteLen c → getSourcePosFor m pos = .ok x → x ≤ hi
+
+theorem seg_upToAll {V : Prop} {c : List Char} {d hi : Nat} {m : Srcmap} (hs : SegAll (Seg V c d hi) m)
+    (hw : C05.WFMap m) : UpToAll c m hi := by
+  intro pos x hpos hx
+  obtain ⟨i, k, v, h1, h2, h3, h4⟩ := C05.lineOf_spec m hw pos
+  rw [C05.getSourcePosFor_of_line_clamp m pos i k v h1 h2 h3] at hx
+  simp only [Except.ok.injEq] at hx
+  subst hx
+  have hseg := segAll_get hs h2
+  cases hn : m[i + 1]? with
+  | none =>
+    rw [hn] at hseg
+    obtain ⟨_, h⟩ := hseg
+    simp only at h
+    have := C05.clampNext_le m i (v + (pos - k)); omega
+  | some y =>
+    obtain ⟨k', v'⟩ := y
+    rw [hn] at hseg
+    obtain ⟨hk, hv, ⟨_, h⟩ | ⟨_, h, _⟩⟩ := hseg
+    · simp only at h hk hv
+      have := C05.clampNext_le_next m i (v + (pos - k)) k' v' hn
+      omega
+    · have := h4 _ _ _ (Nat.lt_succ_self i) hn
+      simp only at h
+      have := C05.clampNext_le m i (v + (pos - k)); omega
+
+theorem UpToAll.upTo {c : List Char} {m : Srcmap} {hi : Nat} (h : UpToAll c m hi) : UpTo c m hi :=
+  fun pos x hp _ hx => h pos x hp hx
 
 /-- a table without virtual-space entries is what the inline range theorems ask for -/
 theorem mapOK_of_noVirt {c : List Char} {m : Srcmap} (hw : C05.WFMap m) (hv : C05.MonoMapV m)
@@ -405,6 +442,15 @@ theorem getLines_table {src : List Char} {offs : List LineOffset}
   intro hno
   exact seg_noVirt (SegAll.imp (Seg.noV hno) hs)
 
+/-- `getLines_table`, the bound for ALL positions (tabs split or not) -/
+theorem getLines_upToAll {src : List Char} {offs : List LineOffset}
+    (hT : ∀ (k : Nat) (o : LineOffset), offs[k]? = some o → Block.LineOk src o)
+    (hord : OrderD 1 offs) {b e indent : Nat} {c : List Char} {m : Srcmap} (hbe : b < e)
+    (h : getLines src offs b e indent false = .ok (c, m)) {oe : LineOffset} (hoe : offs[e - 1]? = some oe) :
+    UpToAll c m oe.lineEnd := by
+  obtain ⟨hs, h0⟩ := getLines_seg (V := True) hT (Nat.le_refl _) hord (fun _ => trivial) hbe h hoe
+  exact seg_upToAll hs (seg_wf hs h0)
+
 /-- the same from the weak order `lineEnd ≤ next lineStart` (all `Block.Geo` knows): no `MonoMapV` -/
 theorem getLines_table_weak {src : List Char} {offs : List LineOffset}
     (hT : ∀ (k : Nat) (o : LineOffset), offs[k]? = some o → Block.LineOk src o)
@@ -427,7 +473,8 @@ theorem single_table (c : List Char) (x : Nat) :
 
 theorem single_translate (x pos : Nat) : getSourcePosFor [(0, x)] pos = .ok (x + pos) := by
   have hw : C05.WFMap [(0, x)] := ⟨⟨x, [], rfl⟩, by simp⟩
-  have := C05.translate_segment [(0, x)] hw pos 0 0 x rfl (Nat.zero_le _) (by intro k' v' h; simp at h)
+  have := C05.translate_segment_free [(0, x)] hw pos 0 0 x rfl (Nat.zero_le _) (by intro k' v' h; simp at h)
+    (by intro k' v' h; simp at h)
   simpa using this
 
 /-! ## `Block.InlSpec`: what `Block.Geo` alone provides -/
